@@ -492,7 +492,7 @@ Section Injective.
       + rewrite Forall_forall in IH. eapply (IH (k, Dir d) Hin).
         * eapply wf_sub; [exact Hwf | exact Hin].
         * reflexivity.
-        * pose proof (depth_sub _ _ _ Hin). lia.
+        * cbn [snd]. pose proof (depth_sub _ _ _ Hin) as Hlt. lia.
         * intros c Hc. apply Hfiles. eapply files_of_sub; [exact Hin | exact Hc].
         * intros s Hs. apply Hsubs. eapply subdirs_sub; [exact Hin | exact Hs].
   Qed.
@@ -572,7 +572,7 @@ Section Injective.
                 (Dir es) Hwf es eq_refl maxdepth Hd) as [es' [Hn Hl]].
     - intros c Hc. apply cas_get_put_keep. apply cas_put_files_get; assumption.
     - intros s Hsub. apply children_lookup, Hsub.
-    - unfold m at 2. cbn [tree_msg_of tm_root]. rewrite Hl. cbn [Nat.eqb]. rewrite Hn. reflexivity.
+    - change (tm_root m) with (dir_msg_of (Dir es)). rewrite Hl. cbn [Nat.eqb]. rewrite Hn. reflexivity.
   Qed.
 
   (* ---------------- the digest is faithful *)
@@ -617,8 +617,8 @@ Section Injective.
         apply in_dirs_in in He as [H1 [d H2]]. split; [exact H1 | exists d; exact H2]. }
       assert (Hl1 : forall e, In e (dirs_in es1) -> In e es1 /\ exists d, snd e = Dir d).
       { intros [k e] He. apply in_dirs_in in He as [H1 [d H2]]. split; [exact H1 | exists d; exact H2]. }
-      revert l3 E3 Hl3 Hp3. generalize dependent (dirs_in es1). intros D1 Hl1.
-      induction D1 as [|[k1 e1] D1 IHD]; intros [|[k3 e3] l3] E3 Hl3 Hp3; cbn [map] in E3; try discriminate; [reflexivity|].
+      clear Hp3. revert l3 E3 Hl3. generalize dependent (dirs_in es1). intros D1 Hl1.
+      induction D1 as [|[k1 e1] D1 IHD]; intros [|[k3 e3] l3] E3 Hl3; cbn [map] in E3; try discriminate; [reflexivity|].
       inversion E3 as [[Ek Eh Es Er]]. cbn [map]. f_equal.
       + unfold nentry. cbn [fst snd]. f_equal.
         apply H_inj, ser_dir_inj in Eh.
@@ -631,7 +631,6 @@ Section Injective.
         * eapply wf_sub; [exact Hwf2 | exact Hin3].
         * exact Eh.
       + apply (IHD (fun e He => Hl1 e (or_intror He)) l3 Er (fun e He => Hl3 e (or_intror He))).
-        apply Permutation_refl.
     - apply (perm_map_inj mkL lE _ _ mkL_inj). apply (sort_eq_perm _ _ _ EL).
   Qed.
 
@@ -715,3 +714,94 @@ Theorem restore_one_subdir_returns :
   | None => False
   end.
 Proof. vm_compute. reflexivity. Qed.
+
+(* ------------------------------------------------------------------ the hypotheses on H / ser_dir /
+   ser_tree / deser_tree are satisfiable: the concrete encoders decode *)
+Lemma dec_nat_enc n r : dec_nat (enc_nat n ++ r) = Some (n, r).
+Proof.
+  unfold enc_nat. induction n as [|n IH]; [reflexivity|].
+  cbn [repeat app dec_nat]. change (Ascii.eqb c1 c0) with false. change (Ascii.eqb c1 c1) with true.
+  cbn iota. rewrite IH. reflexivity.
+Qed.
+
+Lemma firstn_len_app {A} (s r : list A) : firstn (length s) (s ++ r) = s.
+Proof. induction s as [|a s IH]; [reflexivity|]. cbn [length app firstn]. rewrite IH. reflexivity. Qed.
+Lemma skipn_len_app {A} (s r : list A) : skipn (length s) (s ++ r) = r.
+Proof. induction s as [|a s IH]; [reflexivity|]. cbn [length app skipn]. exact IH. Qed.
+
+Lemma dec_str_enc s r : dec_str (enc_str s ++ r) = Some (s, r).
+Proof.
+  unfold dec_str, enc_str. rewrite <- app_assoc, dec_nat_enc.
+  assert (E : Nat.leb (length s) (length (s ++ r)) = true) by (apply Nat.leb_le; rewrite app_length; lia).
+  rewrite E, firstn_len_app, skipn_len_app. reflexivity.
+Qed.
+
+Lemma dec_bool_enc b r : dec_bool (enc_bool b ++ r) = Some (b, r).
+Proof. destruct b; reflexivity. Qed.
+
+Lemma dec_n_enc {A} (enc : A -> str) (dec : str -> option (A * str)) :
+  (forall x r, dec (enc x ++ r) = Some (x, r)) ->
+  forall l r, dec_n dec (length l) (concat (map enc l) ++ r) = Some (l, r).
+Proof.
+  intros Hd l. induction l as [|x l IH]; intro r; [reflexivity|].
+  cbn [length map concat dec_n]. rewrite <- app_assoc, Hd, IH. reflexivity.
+Qed.
+
+Lemma dec_list_enc {A} (enc : A -> str) (dec : str -> option (A * str)) :
+  (forall x r, dec (enc x ++ r) = Some (x, r)) ->
+  forall l r, dec_list dec (enc_list enc l ++ r) = Some (l, r).
+Proof.
+  intros Hd l r. unfold dec_list, enc_list. rewrite <- app_assoc, dec_nat_enc. apply dec_n_enc, Hd.
+Qed.
+
+Lemma dec_digest_enc d r : dec_digest (enc_digest d ++ r) = Some (d, r).
+Proof.
+  destruct d as [h n]. unfold dec_digest, enc_digest. cbn [d_hash d_size].
+  rewrite <- app_assoc, dec_str_enc, dec_nat_enc. reflexivity.
+Qed.
+
+Lemma dec_file_node_enc f r : dec_file_node (enc_file_node f ++ r) = Some (f, r).
+Proof.
+  destruct f as [k d x]. unfold dec_file_node, enc_file_node. cbn [fn_name fn_digest fn_exec].
+  rewrite <- !app_assoc, dec_str_enc, dec_digest_enc, dec_bool_enc. reflexivity.
+Qed.
+
+Lemma dec_dir_node_enc f r : dec_dir_node (enc_dir_node f ++ r) = Some (f, r).
+Proof.
+  destruct f as [k d]. unfold dec_dir_node, enc_dir_node. cbn [dn_name dn_digest].
+  rewrite <- !app_assoc, dec_str_enc, dec_digest_enc. reflexivity.
+Qed.
+
+Lemma dec_link_node_enc f r : dec_link_node (enc_link_node f ++ r) = Some (f, r).
+Proof.
+  destruct f as [k t]. unfold dec_link_node, enc_link_node. cbn [ln_name ln_target].
+  rewrite <- !app_assoc, !dec_str_enc. reflexivity.
+Qed.
+
+Lemma dec_dir_enc d r : dec_dir (enc_dir d ++ r) = Some (d, r).
+Proof.
+  destruct d as [fs ds ls]. unfold dec_dir, enc_dir. cbn [dm_files dm_dirs dm_links].
+  rewrite <- !app_assoc.
+  rewrite (dec_list_enc enc_file_node dec_file_node dec_file_node_enc).
+  rewrite (dec_list_enc enc_dir_node dec_dir_node dec_dir_node_enc).
+  rewrite (dec_list_enc enc_link_node dec_link_node dec_link_node_enc). reflexivity.
+Qed.
+
+Lemma dec_tree_enc m : dec_tree (enc_tree m) = Some m.
+Proof.
+  destruct m as [root cs]. unfold dec_tree, enc_tree. cbn [tm_root tm_children].
+  rewrite dec_dir_enc. rewrite <- (app_nil_r (enc_list enc_dir cs)).
+  rewrite (dec_list_enc enc_dir dec_dir dec_dir_enc). reflexivity.
+Qed.
+
+Lemma enc_dir_inj x y : enc_dir x = enc_dir y -> x = y.
+Proof.
+  intro E. pose proof (dec_dir_enc x []) as Hx. pose proof (dec_dir_enc y []) as Hy.
+  rewrite E in Hx. congruence.
+Qed.
+
+Theorem model_hypotheses_nonvacuous :
+  (forall x y, Hid x = Hid y -> x = y) /\
+  (forall x y, enc_dir x = enc_dir y -> x = y) /\
+  (forall m, dec_tree (enc_tree m) = Some m).
+Proof. split; [intros x y E; exact E | split; [exact enc_dir_inj | exact dec_tree_enc]]. Qed.
